@@ -1,3 +1,4 @@
 SPECIFICATION Spec
-INVARIANTS Total StepsAreFunction Emit
+CONSTANT TranslateVaddr = TRUE
+INVARIANTS Total StepsAreFunction SonameIsTheImages
 CHECK_DEADLOCK FALSE
